@@ -59,40 +59,29 @@ Theorem C17_stale_never_passes :
 Proof. exact stale_never_passes. Qed.
 Print Assumptions C17_stale_never_passes.
 
-(** Per-condition staleness, read as "no entry of the probed condition type may be stale":
-    refuted. With two entries of the same type the first one decides (condition.go:42-64). *)
-Theorem C17_stale_condition_any_entry_refuted :
-  exists cel_compile cel_eval (qs : list osp) (p : prober) (q : osp) (o : json) t s cs,
-    parse cel_compile cel_eval qs = inr p /\ In q qs /\ selects q o = true /\
-    In (LCond t s) (leaves (o_probes q)) /\ conditions_of o = Some cs /\
-    existsb (stale_entry (generation o) t) cs = true /\
-    p o = (true, []).
-Proof. exact stale_condition_any_entry_refuted. Qed.
-Print Assumptions C17_stale_condition_any_entry_refuted.
-
-(** Strongest true variant: a stale entry of the probed type fails the probe unless an earlier
-    entry has the same type. Missing relative to the property: entries shadowed by an earlier
-    entry of the same type. *)
-Theorem C17_stale_condition_never_passes_partial :
-  forall cel_compile cel_eval (qs : list osp) (p : prober) (q : osp) (o : json) t s pre c post,
-    parse cel_compile cel_eval qs = inr p -> In q qs -> selects q o = true ->
-    In (LCond t s) (leaves (o_probes q)) ->
-    conditions_of o = Some (pre ++ c :: post) ->
-    (forall d, In d pre -> has_type t d = false) -> stale_entry (generation o) t c = true ->
-    fst (p o) = false.
-Proof. exact stale_condition_never_passes_partial. Qed.
-Print Assumptions C17_stale_condition_never_passes_partial.
-
-(** With pairwise distinct condition types the clause holds as stated. *)
-Theorem C17_stale_condition_never_passes_unique :
+(** Per-condition staleness, in full: for a selected object and a condition probe of type [t],
+    ANY entry of status.conditions of type [t] that declares an integer observedGeneration
+    different from metadata.generation makes the object fail. No distinctness of condition
+    types is assumed. *)
+Theorem C17_stale_condition_never_passes :
   forall cel_compile cel_eval (qs : list osp) (p : prober) (q : osp) (o : json) t s cs,
     parse cel_compile cel_eval qs = inr p -> In q qs -> selects q o = true ->
     In (LCond t s) (leaves (o_probes q)) ->
-    conditions_of o = Some cs -> types_unique cs = true ->
+    conditions_of o = Some cs ->
     existsb (stale_entry (generation o) t) cs = true ->
     fst (p o) = false.
-Proof. exact stale_condition_never_passes_unique. Qed.
-Print Assumptions C17_stale_condition_never_passes_unique.
+Proof. exact stale_condition_never_passes. Qed.
+Print Assumptions C17_stale_condition_never_passes.
+
+(** History (defect fixed by 9b2e4f3): the condition probe as it was before the fix
+    ([condition_probe_v0], first entry of the probed type decides) let an object pass although a
+    later entry of the probed type was stale. *)
+Theorem C17_v0_stale_condition_any_entry_refuted :
+  exists (o : json) t s cs,
+    conditions_of o = Some cs /\ existsb (stale_entry (generation o) t) cs = true /\
+    condition_probe_v0 t s o = (true, []).
+Proof. exact v0_stale_condition_any_entry_refuted. Qed.
+Print Assumptions C17_v0_stale_condition_any_entry_refuted.
 
 (** fieldsEqual fails when a field is missing (either one, both, or a non-map on the path). *)
 Theorem C17_fields_equal_missing_fails :
@@ -133,10 +122,10 @@ Theorem C17_parse_total :
 Proof. exact parse_total. Qed.
 Print Assumptions C17_parse_total.
 
-(** The run-time monitor accepts every observation of the model, for objects whose condition
-    types are pairwise distinct (the exception is the refuted clause above). *)
+(** The run-time monitor accepts every observation of the model, for every probe list, object
+    and oracle table. *)
 Theorem C17_monitor_sound :
-  forall tbl qs o, wf_obj o = true -> monitor (qs, o, tbl, model qs o tbl) = true.
+  forall tbl qs o, monitor (qs, o, tbl, model qs o tbl) = true.
 Proof. exact monitor_sound. Qed.
 Print Assumptions C17_monitor_sound.
 
@@ -152,7 +141,7 @@ Example C17_ex_stale_condition_and_missing_field :
   exists p, parse ex_cc ex_ce ex_probes = inr p
             /\ In (LCond "Available" "True") (leaves (o_probes ex_q))
             /\ In (LFE ".status.a" ".status.b") (leaves (o_probes ex_q))
-            /\ conditions_of (ex_object 2 1) = Some ([] ++ ex_cond 1 :: [])
+            /\ conditions_of (ex_object 2 1) = Some [ex_cond 1]
             /\ stale_entry (generation (ex_object 2 1)) "Available" (ex_cond 1) = true
             /\ field_present (ex_object 2 1) ".status.b" = false
             /\ p (ex_object 2 1) = (false, [RCondOutdated; RFieldMissingB; RCelFalse]).
@@ -172,13 +161,22 @@ Proof. exact ex_not_boolean_rejected. Qed.
 Print Assumptions C17_ex_not_boolean_rejected.
 
 (** The monitor is not trivially true: an implementation whose And stops at the first failing
-    ObjectSetProbe is rejected, and so is one that lets a selected stale object pass. *)
+    ObjectSetProbe is rejected, so is one that lets a selected stale object pass, and so is one
+    that passes the former witness of the duplicate-condition-type defect. *)
 Example C17_ex_monitor_rejects :
   monitor (ex_probes ++ ex_probes, ex_object 2 1, ex_tbl,
            ORun false [(0%N, RCondOutdated); (0%N, RFieldMissingB); (0%N, RCelFalse)]
                 [(false, [RCondOutdated; RFieldMissingB; RCelFalse]); (false, [RCondOutdated; RFieldMissingB; RCelFalse])]
                 true) = false
   /\ monitor (ex_probes, ex_object 1 2, ex_tbl, ORun true [] [(true, [])] true) = false
-  /\ wf_obj (ex_object 1 2) = true.
+  /\ monitor (dup_witness_probes, dup_witness_object, [], ORun true [] [(true, [])] true) = false.
 Proof. exact ex_monitor_rejects. Qed.
 Print Assumptions C17_ex_monitor_rejects.
+
+(** The former witness on the current model: the parsed prober fails it as outdated. *)
+Example C17_ex_dup_witness_now_fails :
+  exists p, parse (fun _ => CelOk) (fun _ _ => CelTrue) dup_witness_probes = inr p
+            /\ selects dup_witness_q dup_witness_object = true
+            /\ p dup_witness_object = (false, [RCondOutdated]).
+Proof. exact dup_witness_now_fails. Qed.
+Print Assumptions C17_ex_dup_witness_now_fails.
